@@ -223,7 +223,11 @@ def _mk_omit(inp):
         return _mk_collection(ch), "self"
     if len(ch["ops"]) < 2:
         return None, None
-    return _mk_collection(dict(ch, ops=ch["ops"][:1])), "prefix"
+    om = _mk_collection(dict(ch, ops=ch["ops"][:1]))
+    if _okeys(om) == _okeys(_mk_collection(ch)):
+        # the remaining operations are no-ops (e.g. ravel of a 1-d array): omit *is* the child
+        return om, "self"
+    return om, "prefix"
 
 
 SIG_AL = "{op}:assume_layers=False-with-omit:cannot-compute"
